@@ -2,7 +2,7 @@
 from common import TB_COMMON
 
 PROP = {
-    'lean_modules': ['CapyV.Props.C13'],
+    'lean_modules': ['CapyV.Props.C13', 'CapyV.Props.C13Lit'],
     'level': 'proof',
     "trusted_base": TB_COMMON + [   'the same transcription as C12 (lean/CapyV/Model/TyRel.lean)',
     'value preservation of distinct <-> underlying casts is code generation (cast_into_memory / castNum, '
@@ -29,6 +29,6 @@ LEVEL = ('proof',
  'struct, variant whose payload is a structurally identical struct): _partial + _counterexample (`x : E.V = '
  's1` compiles). Correspondence: the C12 pair matrix restricted to nominal rows (~1 M pairs thorough), with '
  "an oracle written from the property text evaluated on the implementation's answers for can_fit_into, max "
- 'and can_cast_to, including member-wise for `.{ .. }` literals accepted where a named struct is expected.',
+ 'and can_cast_to, including member-wise for `.{ .. }` literals accepted where a named struct is expected (Props/C13Lit.lean: literal_members_fit, literal_distinct_member — every member of an accepted literal is accepted by the member of the same name, no layout short cut).',
  '§4 C13',
  'Lean 4 proof over the shared type-relation model + differential correspondence on the real crate')
